@@ -222,7 +222,8 @@ pub fn run(seed: u64, n: usize, out: &mut Out, focus_tags: bool) {
             continue;
         }
         let mut hist: Vec<serde_json::Value> = vec![json!({"new": accepted, "optimize": optimize})];
-        crate::c11::emit_plines(out, &accepted);
+        // (all lines, the rejected ones included: which lines are rules at all is part of what is compared)
+        crate::c11::emit_plines(out, &lines);
         let dumps: Vec<String> = parse_all(&accepted).iter().map(|p| dump_rule(&p.f, false)).collect();
         out.case(&format!("hnew\t{}\t{}", if optimize { 1 } else { 0 }, dumps.join("\t")), "ok", json!({"history": hist.clone()}), false);
         let mut tags: BTreeSet<String> = BTreeSet::new();
@@ -340,6 +341,13 @@ pub fn run(seed: u64, n: usize, out: &mut Out, focus_tags: bool) {
                     // a $generichide exception added incrementally (its own list in the blocker)
                     saw_generichide = true;
                     format!("@@||{}^$generichide", r.pick(&["cdn.test", "a.test", "x.test", "news.com"]))
+                } else if r.pct(12) {
+                    // a host pattern with a wildcard inside: whichever token it is stored under, batch or one at a time, must be
+                    // a whole token of the URLs it matches
+                    let k = r.below(3);
+                    forced.push((format!("https://img.adserv{}.cdn.test/pixel.gif", 3 + k), "https://shop.test/".to_string(), "image".to_string()));
+                    forced.push(("https://img.adserv.cdn.test/pixel.gif".to_string(), "https://shop.test/".to_string(), "image".to_string()));
+                    format!("{}||img.adserv*.cdn.test^{}", if r.pct(15) { "@@" } else { "" }, r.pick(&["", "$image", "$third-party"]))
                 } else if r.pct(25) {
                     multi_group_rule(&mut r)
                 } else if r.pct(60) { regexy_rule(&mut r) } else { gen::cluster(&mut r, &o).pop().unwrap() };
